@@ -34,10 +34,25 @@ class _S:
 
 
 # ------------------------------------------------------------------------------------------------ optlang
+def _check_name(name):
+    """optlang refuses names with whitespace (the LP formats of the solvers cannot hold them)."""
+    if not isinstance(name, str) or not name or any(ch.isspace() for ch in name):
+        raise ValueError(f"Variable/constraint names cannot contain whitespace ({name!r})")
+    return name
+
+
 class OVar(_Var, _S):
     def __init__(self, name, lb=None, ub=None, type="continuous", problem=None, **kw):
-        _Var.__init__(self, name, lb, ub, type)
+        _Var.__init__(self, _check_name(name), lb, ub, type)
         self.problem = None
+
+    @property
+    def name(self):
+        return self.__dict__["_name"]
+
+    @name.setter
+    def name(self, value):
+        self.__dict__["_name"] = _check_name(value)
 
     def set_bounds(self, lb, ub):
         if lb is not None and ub is not None and lb > ub:
@@ -54,8 +69,17 @@ class OVar(_Var, _S):
 class OCons(_S):
     def __init__(self, expression, lb=None, ub=None, name=None, sloppy=False, **kw):
         self.expression = Lin.of(expression)
-        self.lb, self.ub, self.name = lb, ub, name
+        self.lb, self.ub = lb, ub
+        self.name = name
         self.problem = None
+
+    @property
+    def name(self):
+        return self.__dict__["_name"]
+
+    @name.setter
+    def name(self, value):
+        self.__dict__["_name"] = _check_name(value) if value is not None else None
 
     @property
     def variables(self):
@@ -853,6 +877,7 @@ OPS: Dict[str, Tuple[str, Callable]] = {
     "cancel metabolite": ("R1.add_metabolites({b_c: -1})", lambda w, m, h: h["R1"].add_metabolites({h["mets"]["b_c"]: -1.0})),
     "replace coefficients": ("R1.add_metabolites({b_c: 4, c_c: 2}, combine=False)", lambda w, m, h: h["R1"].add_metabolites({h["mets"]["b_c"]: 4.0, h["mets"]["c_c"]: 2.0}, combine=False)),
     "metabolite by id": ("R2.add_metabolites({'a_c': 0.5})", lambda w, m, h: h["R2"].add_metabolites({"a_c": 0.5})),
+    "existing metabolite by id": ("R1.add_metabolites({'b_c': 2})", lambda w, m, h: h["R1"].add_metabolites({"b_c": 2.0})),
     "subtract": ("R2.subtract_metabolites({c_c: 2})", lambda w, m, h: h["R2"].subtract_metabolites({h["mets"]["c_c"]: 2.0})),
     "scale": ("R2 *= 2", lambda w, m, h: _dunder(w, h["R2"], "__imul__", 2.0)),
     "reverse": ("R1 *= -1", lambda w, m, h: _dunder(w, h["R1"], "__imul__", -1.0)),
@@ -881,6 +906,9 @@ REFUSED: Dict[str, Tuple[str, Callable]] = {
     "lower bound above upper": ("R2.lower_bound = 50", lambda w, m, h: _set(h["R2"], "lower_bound", 50.0)),
     "unknown metabolite id": ("R1.add_metabolites({c_c: 1, 'nope': 2})", lambda w, m, h: h["R1"].add_metabolites({h["mets"]["c_c"]: 1.0, "nope": 2.0})),
     "unknown reaction id": ("model.remove_reactions(['nope'])", lambda w, m, h: m.remove_reactions(["nope"])),
+    "metabolite renamed to a name the solver refuses": ("b_c.id = 'b c'", lambda w, m, h: _set(h["mets"]["b_c"], "id", "b c")),
+    "reaction renamed to a name the solver refuses": ("R1.id = 'R 1'", lambda w, m, h: _set(h["R1"], "id", "R 1")),
+    "metabolite renamed to a taken name": ("b_c.id = 'a_c'", lambda w, m, h: _set(h["mets"]["b_c"], "id", "a_c")),
     "foreign objective reaction": ("model.objective = {a reaction of no model: 1}", lambda w, m, h: _set(m, "objective", {w.new("Reaction", "FOREIGN"): 1.0})),
 }
 CORE = ["bounds", "knock_out", "add new metabolite", "cancel metabolite", "reverse", "rule with a new gene", "objective reaction", "direction", "add_reactions", "remove_reactions", "remove with orphans",
@@ -1025,7 +1053,14 @@ def check_replay(ctx, rule: str, part: str = "restore") -> None:
     text = {"restore": "leaving the block restores the whole object graph and the solver problem", "c01": "after every operation the solver holds exactly the flux-balance problem of the model as it stands",
             "c02": "after every operation all cross-references agree"}[part]
     if found:
-        ctx.bad(rule, fn, f"replay ({part})", "; ".join(found[:2]) + (f" (+{len(found) - 2} more scenario(s))" if len(found) > 2 else ""))
+        # one finding per operation involved (the text between the first pair of back quotes), so that a second defect
+        # is not hidden behind a first one
+        groups: Dict[str, List[str]] = {}
+        for f in found:
+            k = f.split("`")[1] if f.count("`") >= 2 else "replay"
+            groups.setdefault(k, []).append(f)
+        for k, fs in list(groups.items())[:6]:
+            ctx.bad(rule, fn, f"replay ({part}): {k}", "; ".join(fs[:2]) + (f" (+{len(fs) - 2} more scenario(s))" if len(fs) > 2 else ""))
     else:
         ctx.ok(rule, fn, f"replay ({part})", f"{rep.scenarios} scenarios ({len(OPS)} reversible operations alone, in a block ended by an exception and in a nested block; {len(CORE) * (len(CORE) - 1)} ordered pairs; longer scripts; {len(REFUSED)} refused operations), "
                                              f"{rep.raised} of them ending by an exception of the evaluated code: {text}")
